@@ -7,6 +7,7 @@
 package main
 
 import (
+	"context"
 	"encoding/json"
 	"flag"
 	"fmt"
@@ -21,6 +22,7 @@ import (
 	"strconv"
 	"strings"
 	"sync"
+	"sync/atomic"
 	"time"
 
 	"verif/engine/symgo"
@@ -825,16 +827,27 @@ func runBMC(eng *symgo.Engine, cfg symgo.HarnessCfg, j job, tier string) (*symgo
 	}
 	out := make([]qr, len(queries))
 	var wg sync.WaitGroup
+	ctx, cancelAll := context.WithCancel(context.Background())
+	defer cancelAll()
+	var violated int32
 	for qi, q := range queries {
 		wg.Add(1)
 		go func(qi int, q string) {
 			defer wg.Done()
-			r, trace, d := b.Solve(q, K, time.Duration(to)*time.Second, solver)
+			r, trace, d := b.Solve(ctx, q, K, time.Duration(to)*time.Second, solver)
 			out[qi] = qr{q, r.String(), trace, d}
+			if r.String() == "sat" && q != "cut" {
+				// a violation decides the check: the remaining queries are abandoned
+				atomic.StoreInt32(&violated, 1)
+				cancelAll()
+			}
 		}(qi, q)
 	}
 	wg.Wait()
 	for _, o := range out {
+		if o.r == "unknown" && atomic.LoadInt32(&violated) == 1 {
+			continue // abandoned after a violation was found
+		}
 		ex.Obligations++
 		if os.Getenv("VERIF_PROGRESS") != "" {
 			fmt.Fprintf(os.Stderr, "[%s] bmc query %s: %s in %.1fs (K=%d, %s)\n", j.label, o.q, o.r, o.d.Seconds(), K, b.Describe())
@@ -848,8 +861,12 @@ func runBMC(eng *symgo.Engine, cfg symgo.HarnessCfg, j job, tier string) (*symgo
 			if strings.HasPrefix(qk, "bad:") {
 				qk = "bad"
 			}
+			if strings.HasPrefix(qk, "growth:") {
+				qk = "growth"
+			}
 			msg := map[string]string{"bad": "assertion failure or misuse of a channel/mutex/WaitGroup under some schedule", "deadlock": "deadlock or goroutine left behind under some schedule",
-				"cut": "a bound of the model is too small (thread path, receive or instance bound reachable)", "race": "data race: two goroutines can access the same variable at the same time, at least one writing"}[qk]
+				"cut": "a bound of the model is too small (thread path, receive or instance bound reachable)", "growth": "free capacity is not used: a released hit has to wait although fewer than max-workers hits are in flight",
+				"race": "data race: two goroutines can access the same variable at the same time, at least one writing"}[qk]
 			last := ""
 			if len(o.trace) > 0 {
 				last = o.trace[len(o.trace)-1]
